@@ -462,3 +462,21 @@ pub fn rec_hide_day_new(h: HideHeavenStem, di: usize) -> HideHeavenStemDay {
   unsafe { H_ARGS.2 = di; }
   HideHeavenStemDay { parent: AbstractCultureDay::new(AbstractCulture::new(), di), hide_heaven_stem: h }
 }
+
+// ---- C11 / C08: the sexagenary year: accepted for -1..=9999, stepping adds n to the year, the year pillar is (year - 4) mod 60
+#[kani::proof]
+#[kani::unwind(61)]
+#[kani::stub(alloc::fmt::format, stub_format)]
+#[kani::stub(SixtyCycle::from_index, faithful_cycle_from_index)]
+fn c11_k_sixty_year_next() {
+  let y: isize = kani::any(); let n: isize = kani::any();
+  kani::assume(y >= -1 && y <= 9999 && n >= -20000 && n <= 20000);
+  let ok = SixtyCycleYear::new(y + n);
+  assert!(ok.is_ok() == (y + n >= -1 && y + n <= 9999), "a sexagenary year is accepted exactly for -1..=9999");
+  core::mem::forget(ok);
+  kani::assume(y + n >= -1 && y + n <= 9999);
+  let r = SixtyCycleYear { year: y }.next(n);
+  assert!(r.get_year() == y + n, "the year moves by exactly n");
+  assert!(r.get_sixty_cycle().get_index() as i64 == spec::emod((y + n) as i64 - 4, 60), "year pillar == (year - 4) mod 60");
+  kani::cover!(y == 0 && n == -1, "sixty_year_next reachable (into year -1)");
+}
